@@ -38,6 +38,24 @@ func (f *Flooder) VerifC29Age(d time.Duration, restamp func(*protocol.WakeComman
 	f.pendingWakeMu.Unlock()
 }
 
+// VerifC29SetWindow changes the timestamp validity window of a running flooder (edge probes).
+func (f *Flooder) VerifC29SetWindow(d time.Duration) { f.timestampWindow = d }
+
+// VerifC29CleanupAt runs the sleep-command cache cleanup as cleanup() does, but at the instant
+// SeenAt(origin,id) + sleepCmdCacheTTL() + delta - cleanupSleepCmdCache takes the instant as an
+// argument, so the expiry edge can be hit to the nanosecond. Returns false if the key is not cached.
+func (f *Flooder) VerifC29CleanupAt(origin identity.AgentID, id uint64, delta time.Duration) bool {
+	f.sleepCmdMu.Lock()
+	defer f.sleepCmdMu.Unlock()
+	e, ok := f.sleepCmdSeenCache[SleepCommandKey{OriginAgent: origin, CommandID: id}]
+	if !ok {
+		return false
+	}
+	ttl := f.sleepCmdCacheTTL()
+	f.cleanupSleepCmdCache(e.SeenAt.Add(ttl).Add(delta), ttl)
+	return true
+}
+
 // VerifC29PendingWake exposes the stored pending wake command (nil if none).
 func (f *Flooder) VerifC29PendingWake() *protocol.WakeCommand {
 	f.pendingWakeMu.RLock()
